@@ -116,6 +116,11 @@ def parse_mir(text):
         mc = re.match(r"^const ([\w:<> ]+?): (\w+) = \{$", ln)
         if mc:
             ln = f"fn const:{mc.group(1).split('::')[-1]}() -> {mc.group(2)} {{"
+        mp = re.match(r"^const (.+::promoted\[\d+\]): (&?[\w:]+) = \{$", ln)
+        if mp:
+            # a promoted constant (`&RRType::A` in a comparison): keyed by its path after the impl block
+            tail = mp.group(1).split(">::")[-1]
+            ln = f"fn promoted:{tail}() -> {mp.group(2)} {{"
         m = re.match(r"^fn (.+?)\((.*)\) -> (.+) \{$", ln)
         if m:
             name, argtxt, ret = m.group(1), m.group(2), m.group(3)
@@ -161,6 +166,8 @@ def parse_mir(text):
 # ----------------------------------------------------------------------------
 
 _fresh = itertools.count()
+PROMOTED = {}   # objects behind promoted constants: ("promoted", key) -> {(): value}
+ENUM_IDS = {}   # fieldless enum variants compared with ==: variant path -> small distinct number (only equality matters)
 LEMMAS = []   # definitional constraints on fresh symbols (division by constants); conjoined to every query
 
 
@@ -394,7 +401,20 @@ class Explorer:
                 pass
         return v
 
+    def _enum_operand(self, st, ref):
+        v = st.objs.get(ref.obj, {}).get(ref.path) if ref.obj in st.objs or ref.obj not in PROMOTED else PROMOTED[ref.obj].get(ref.path)
+        if isinstance(v, BV):
+            return v
+        if isinstance(v, Adt) and not v.items and v.discr is None and re.fullmatch(r"[\w:]+", v.name):
+            key = "::".join(v.name.split("::")[-2:])
+            if key not in ENUM_IDS:
+                ENUM_IDS[key] = len(ENUM_IDS) + 1
+            return BV(z3.BitVecVal(ENUM_IDS[key], 16), 16)
+        return None
+
     def obj_read(self, st, obj, path, ty):
+        if obj not in st.objs and obj in PROMOTED:
+            st.objs[obj] = dict(PROMOTED[obj])
         o = st.objs.setdefault(obj, {})
         if path in o:
             return o[path]
@@ -492,6 +512,23 @@ class Explorer:
                 return cache[name]
         if t == "()":
             return Tup([])
+        if re.search(r"::promoted\[\d+\]$", t):
+            segs = t.split("::")
+            for k in range(len(segs) - 2, -1, -1):
+                key = "promoted:" + "::".join(segs[k:])
+                if key in self.funcs:
+                    cache = self.__dict__.setdefault("_promoted_cache", {})
+                    if key not in cache:
+                        sub = Explorer(self.funcs, self.consts)
+                        rets = [p for p in sub.explore(key) if p.outcome == "return"]
+                        val = None
+                        if len(rets) == 1 and isinstance(rets[0].ret, Ref):
+                            val = rets[0].objs.get(rets[0].ret.obj, {}).get(rets[0].ret.path)
+                        cache[key] = val
+                    if cache[key] is not None:
+                        PROMOTED[("promoted", key)] = {(): cache[key]}
+                        return Ref(("promoted", key), (), mutable=False)
+                    break
         return Opaque("const " + t[:40])
 
     def operand(self, st, frame, txt):
@@ -652,7 +689,7 @@ class Explorer:
             dv = fresh_of_type("isize", "discr", False)
             st.events.append(("discr", frame.func.name, m.group(1).strip(), dv))
             return dv
-        if re.fullmatch(r"[A-Za-z_][\w:<>, &']*::(None|Some|Ok|Err)", t) and t.endswith("None"):
+        if re.fullmatch(r"[A-Za-z_][\w:<>, &'()\[\]]*::(None|Some|Ok|Err)", t) and t.endswith("None"):
             return Adt(t, [])
         # references
         m = re.fullmatch(r"&(mut |raw const |raw mut )?(.*)", t)
@@ -692,6 +729,8 @@ class Explorer:
                 k, _, v = fv.partition(": ")
                 items.append(self.operand(st, frame, v))
             return Adt(m.group(1).strip(), items)
+        if re.fullmatch(r"[A-Za-z_]\w*(::[A-Za-z_]\w*)*::[A-Z]\w*", t):
+            return Adt(t, [])   # a fieldless enum variant (`RRType::A`)
         if dest_ty:
             return fresh_of_type(dest_ty, "rv", True)
         return Opaque("rvalue " + t[:50])
@@ -864,6 +903,19 @@ class Explorer:
             m = re.match(r"(?:(.+?) = )?(.+?)\((.*)\) -> (.*);$", t, re.S)
             if m:
                 dest, callee, argtxt, tail = m.groups()
+                if "(" in argtxt or "(" in callee:
+                    # a callee path with parentheses of its own: `<(dyn Any + 'static)>::downcast_ref::<T>(copy _1)`
+                    head = t[len(dest) + 3 if dest else 0:]
+                    cut = head.rfind(") -> ")
+                    depth, k = 0, cut
+                    while k >= 0:
+                        depth += head[k] == ")"
+                        depth -= head[k] == "("
+                        if depth == 0:
+                            break
+                        k -= 1
+                    if k > 0:
+                        callee, argtxt, tail = head[:k], head[k + 1:cut], head[cut + 5:].rstrip(";")
                 rb = re.search(r"return: (bb\d+)", tail)
                 ret_block = rb.group(1) if rb else None
                 args = [self.operand(st, fr, a) for a in split_top(argtxt)]
@@ -907,6 +959,16 @@ class Explorer:
                             rv = BV(z3.If(ovf, sat, res), w, False, tnt)
                         else:
                             rv = Adt("Option::Some?", [BV(res, w, False, tnt)], discr=z3.If(ovf, z3.BitVecVal(0, 64), z3.BitVecVal(1, 64)))
+                elif re.fullmatch(r"<(\w+) as PartialEq>::(eq|ne)", cname) and len(args) == 2 and all(isinstance(a, Ref) for a in args) \
+                        and self._enum_operand(st, args[0]) is not None and self._enum_operand(st, args[1]) is not None:
+                    # == on a fieldless enum (derived PartialEq): equal discriminants. Variants get distinct numbers;
+                    # a symbolic operand (BV) ranges over all of them and over "any other variant"
+                    a, b = self._enum_operand(st, args[0]), self._enum_operand(st, args[1])
+                    w = max(a.width, b.width)
+                    ae = z3.ZeroExt(w - a.width, a.e) if a.width < w else a.e
+                    be = z3.ZeroExt(w - b.width, b.e) if b.width < w else b.e
+                    eqv = ae == be
+                    rv = BoolV(eqv if short == "eq" else z3.Not(eqv), a.taint or b.taint)
                 elif short in ("get_record", "get_record_mut") and len(args) == 1 and isinstance(args[0], Ref):
                     # pure accessor of the trait object: same receiver -> same record object
                     rv = Ref(("record-of", args[0].obj, args[0].path), ())
